@@ -40,6 +40,8 @@ class World:
         from unified_planning.model import Fluent, Object, Parameter, Variable, Problem, UPState, InterpretedFunction
         from unified_planning.model.walkers import ExpressionQuantifiersRemover
         from unified_planning.model.walkers.state_evaluator import StateEvaluator
+        from unified_planning.model.walkers.quantifier_simplifier import QuantifierSimplifier
+        self._Object = Object
         env = self.env = Environment()
         self.log = []
         self.dag = {}
@@ -49,6 +51,8 @@ class World:
         em = self.em = env.expression_manager
         tm = env.type_manager
         T = self.T = tm.UserType("T")
+        self.T1 = tm.UserType("T1", T)           # subtype of T: its objects are quantified over by a T variable
+        self.U = tm.UserType("U")                # unrelated type
         self.objs = [Object("o%d" % i, T, env) for i in range(N_OBJ)]
         self.bools = [Fluent(n, tm.BoolType(), environment=env) for n in BOOLS]
         self.x = Fluent("x", tm.IntType(), environment=env)
@@ -80,16 +84,61 @@ class World:
             UPState({self.y(): em.Int(4), self.r(): em.Real(Fraction(1, 2)), self.p(self.objs[0]): em.TRUE()}, pb),
             UPState({self.y(): em.Int(0), self.bools[0](): em.TRUE()}, pb),          # r missing
             UPState({self.r(): em.Real(Fraction(3, 1)), self.cnt(self.objs[1]): em.Int(3)}, pb),   # y missing
+            # p holds for every initial object: an object added later (default False) changes Forall v. p(v)
+            UPState(dict([(self.y(), em.Int(4)), (self.r(), em.Real(Fraction(1, 2)))]
+                         + [(self.p(o), em.TRUE()) for o in self.objs]), pb),
         ]
+        # a second objects_set for remove_quantifiers (two of the three objects)
+        pb2 = self.problem2 = Problem("c14b", env)
+        pb2.add_objects(self.objs[:2])
+        self.problems = [pb, pb2]
         self.remover = ExpressionQuantifiersRemover(env)
         self.se = StateEvaluator(pb)
+        self.qs = QuantifierSimplifier(env, pb)
+        # arguments that live as long as the walkers and are MUTATED between calls (see apply)
+        self.assign = {}                         # qsimplify's assignments: ground fluent -> constant
+        for i, f in enumerate(self.bools):
+            self.assign[f()] = em.Bool(i % 2 == 0)
+        self.assign[self.x()] = em.Int(1)
+        self.assign[self.y()] = em.Int(4)
+        self.assign[self.xb()] = em.Int(2)
+        self.assign[self.r()] = em.Real(Fraction(1, 2))
+        for i, o in enumerate(self.objs):
+            self.assign[self.p(o)] = em.TRUE()        # so that Forall v. p(v) reaches an object added later
+            self.assign[self.cnt(o)] = em.Int(i)
+        for k in range(6):
+            self.assign[self.g(k)] = em.Int(k)
+        self.subs = {}                           # a substitution map kept and edited between substitute calls
         if instrument:
             instrument(self, env.simplifier, 1, False, False)
             instrument(self, env.substituter, 2, True, True)
             instrument(self, env.free_vars_extractor, 3, False, False)
             instrument(self, env.free_vars_oracle, 4, False, False)
             instrument(self, self.remover, 5, True, False)
-            instrument(self, self.se, 6, True, True, evaluator=True)
+            instrument(self, self.se, 6, True, True, evaluator="evaluate")
+            instrument(self, self.qs, 7, True, True, evaluator="qsimplify")
+
+    def apply(self, m):
+        """A mutation of an argument the long-lived walkers are called with (replayed on the fresh world too)."""
+        k = m[0]
+        if k == "add_object":                    # ("add_object", "T"|"T1"|"U", problem index)
+            o = self._Object("n%d" % len(self.objs), getattr(self, m[1]), self.env)
+            self.objs.append(o)
+            self.problems[m[2]].add_object(o)
+        elif k == "share_object":                # an existing object also becomes an object of the other problem
+            o = self.objs[m[1]]
+            if o not in self.problems[m[2]].all_objects:
+                self.problems[m[2]].add_object(o)
+        elif k == "assign":                      # ("assign", fluent tree, constant tree)
+            self.assign[build(self, m[1])] = build(self, m[2])
+        elif k == "assign_del":
+            self.assign.pop(build(self, m[1]), None)
+        elif k == "subs_set":
+            self.subs[build(self, m[1])] = build(self, m[2])
+        elif k == "subs_clear":
+            self.subs.clear()
+        else:
+            raise ValueError(m)
 
 
 def instrument(w, walker, idx, inval, qleaf, evaluator=False):
@@ -142,21 +191,21 @@ def instrument(w, walker, idx, inval, qleaf, evaluator=False):
     walker._compute_node_result = compute
     walker._push_with_children_to_stack = push
     if evaluator:
-        orig_eval = walker.evaluate
+        orig_eval = getattr(walker, evaluator)
 
-        def evaluate(expression, state, *a, **kw):
+        def evaluate(expression, *a, **kw):
             note(expression)
             busy = walker._variable_assignments is not None or walker._assignments is not None
             st["failed_at"] = None
             try:
-                res = orig_eval(expression, state, *a, **kw)
+                res = orig_eval(expression, *a, **kw)
             except BaseException as e:
                 asserted = busy and isinstance(e, AssertionError)
                 entry(expression, False, None if asserted else st["failed_at"], asserted, True)
                 raise
             entry(expression, True, None, False, True)
             return res
-        walker.evaluate = evaluate
+        setattr(walker, evaluator, evaluate)
 
 
 # ---------------------------------------------------------------------------------------------- expressions
@@ -232,8 +281,12 @@ def perform(w, call):
             res = sorted(v.name for v in w.env.free_vars_oracle.get_free_variables(e))
         elif kind == "fluents":
             res = sorted(dump(f) for f in w.env.free_vars_extractor.get(e))
+        elif kind == "substitute_kept":          # the kept, edited map (same dict object every time)
+            res = dump(e.substitute(w.subs))
         elif kind == "remove_quantifiers":
-            res = dump(w.remover.remove_quantifiers(e, w.problem))
+            res = dump(w.remover.remove_quantifiers(e, w.problems[call[2] if len(call) > 2 else 0]))
+        elif kind == "qsimplify":
+            res = dump(w.qs.qsimplify(e, w.assign, {}))
         elif kind == "evaluate":
             res = dump(w.se.evaluate(e, w.states[call[2]]))
         else:
@@ -249,11 +302,68 @@ class Gen:
         self.rng = rng
         self.pool = {"bool": [], "num": []}     # subtrees used earlier in this history (sharing => memo hits)
         self.bad_used = []
+        self.obj_types = ["T"] * N_OBJ          # types of the objects that exist so far (grows with add_object)
+        self.quant_used = []                    # quantified expressions already given to a walker with a problem
 
     def obj(self, bound):
         if bound and self.rng.random() < 0.7:
             return ("var", self.rng.choice(bound))
-        return ("obj", self.rng.randrange(N_OBJ))
+        ok = [i for i, t in enumerate(self.obj_types) if t != "U"]
+        return ("obj", self.rng.choice(ok))
+
+    def quantified(self):
+        v = self.rng.randrange(2)
+        body = self.boolean(2, [v])
+        if self.rng.random() < 0.5:
+            body = ("p", ("var", v)) if self.rng.random() < 0.5 else ("Or", [("p", ("var", v)), ("b", self.rng.randrange(3))])
+        e = (self.rng.choice(["Exists", "Forall"]), v, body)
+        return e if self.rng.random() < 0.6 else ("And", [e, self.boolean(1, [])])
+
+    def mutation(self):
+        """An edit of an argument that a long-lived walker is called with again afterwards."""
+        rng = self.rng
+        r = rng.random()
+        if r < 0.5:
+            t = rng.choice(["T", "T", "T1", "T1", "U"])
+            self.obj_types.append(t)
+            return ("add_object", t, rng.choice([0, 0, 1]))
+        if r < 0.6:
+            return ("share_object", rng.randrange(len(self.obj_types)), 1)
+        if r < 0.8:
+            s = rng.random()
+            if s < 0.4:
+                return ("assign", ("b", rng.randrange(3)), ("T",) if rng.random() < 0.5 else ("F",))
+            if s < 0.7:
+                return ("assign", (rng.choice(["x", "y", "xb"]),), ("int", rng.randint(0, 9)))
+            if s < 0.85:
+                return ("assign", ("p", self.obj([])), ("T",) if rng.random() < 0.5 else ("F",))
+            return ("assign_del", (rng.choice(["x", "y"]),))
+        if r < 0.95:
+            s = rng.random()
+            if s < 0.4:
+                return ("subs_set", ("b", rng.randrange(3)), self.boolean(1, []))
+            if s < 0.8:
+                return ("subs_set", (rng.choice(["x", "y"]),), self.num(1, []))
+            return ("subs_set", ("p", self.obj([])), ("b", rng.randrange(3)))
+        return ("subs_clear",)
+
+    def after_mutation_call(self, m):
+        """The call that follows a mutation: the same expression as before, or a new one, on the mutated argument."""
+        rng = self.rng
+        k = m[0]
+        if k in ("add_object", "share_object"):
+            e = rng.choice(self.quant_used) if self.quant_used and rng.random() < 0.6 else self.quantified()
+            if e not in self.quant_used:
+                self.quant_used.append(e)
+            r = rng.random()
+            if r < 0.55:
+                return ("remove_quantifiers", e, m[2] if rng.random() < 0.8 else 1 - m[2])
+            if r < 0.8:
+                return ("evaluate", e, 3)
+            return ("qsimplify", e)
+        if k in ("assign", "assign_del"):
+            return ("qsimplify", rng.choice(self.pool["bool"]) if self.pool["bool"] and rng.random() < 0.5 else self.boolean(2, []))
+        return ("substitute_kept", rng.choice(self.pool["bool"]) if self.pool["bool"] and rng.random() < 0.5 else self.boolean(2, []))
 
     def num(self, d, bound, grounded=False):
         rng = self.rng
@@ -392,7 +502,7 @@ class Gen:
                 elif s < 0.6:
                     subs.append(((rng.choice(["x", "y"]),), self.num(1, [])))
                 elif s < 0.8:
-                    subs.append((("p", ("obj", rng.randrange(N_OBJ))), ("b", rng.randrange(3))))
+                    subs.append((("p", self.obj([])), ("b", rng.randrange(3))))
                 else:
                     subs.append((("xb",), ("int", rng.randint(0, 10))))
             return ("substitute", e, subs)
@@ -400,9 +510,16 @@ class Gen:
             return ("free_vars", e)
         if r < 0.76:
             return ("fluents", e)
-        if r < 0.88:
-            return ("remove_quantifiers", e if isb else self.boolean(3, []))
-        return ("evaluate", e, 0)
+        if r < 0.86:
+            q = self.quantified() if rng.random() < 0.6 else (e if isb else self.boolean(3, []))
+            if q[0] in ("Exists", "Forall", "And") and q not in self.quant_used and len(self.quant_used) < 12:
+                self.quant_used.append(q)
+            return ("remove_quantifiers", q, rng.choice([0, 0, 0, 1]))
+        if r < 0.9:
+            return ("qsimplify", e)
+        if r < 0.93:
+            return ("substitute_kept", e)
+        return ("evaluate", e, rng.choice([0, 0, 3]))
 
 
 def ser_case(w, fuel):
@@ -441,16 +558,33 @@ def run(ctx):
         w = World(instrument)
         n_calls = rng.randint(5, 40)
         p_fail = rng.uniform(0.10, 0.30)
-        calls, outs = [], []
+        calls, outs, muts = [], [], []
+        pending = None
         for i in range(n_calls):
-            if rng.random() < p_fail:
+            if pending is not None:
+                call, pending = g.after_mutation_call(pending), None
+            elif i + 1 < n_calls and rng.random() < 0.12:
+                # the argument of a long-lived walker is edited; the edit is part of the history (a pseudo call)
+                m = g.mutation()
+                w.apply(m)
+                muts.append(m)
+                calls.append(("mutate",) + m)
+                outs.append(["ok", "mutated"])
+                stats["argument_mutations"] = stats.get("argument_mutations", 0) + 1
+                kinds["mutate:" + m[0]] = kinds.get("mutate:" + m[0], 0) + 1
+                pending = m
+                continue
+            elif rng.random() < p_fail:
                 call, recipe = g.failing_call()
                 stats["failing_by_design"] += 1
                 recipes[recipe] = recipes.get(recipe, 0) + 1
             else:
                 call = g.normal_call()
             out = perform(w, call)
-            fresh = perform(World(), call)                 # the property oracle: same call, fresh Environment
+            fw = World()                                   # the property oracle: same call, same (edited) arguments,
+            for m in muts:                                 # fresh Environment and fresh walkers
+                fw.apply(m)
+            fresh = perform(fw, call)
             calls.append(call)
             outs.append(out)
             kinds[call[0]] = kinds.get(call[0], 0) + 1
